@@ -7,9 +7,13 @@
    Preconditions (hypotheses; monitored by the harness): the request is made at root level (`layers s = []`; above root
    level the shortcuts would consult retractable bounds), the arguments are canonical expressions over existing variables
    (rel_args_ok), `fresh` is sat_core's next variable (fresh_ok).
-   Sharing keys are modelled by the canonical data (the expression itself / (slack, op, constant)); that
-   to_string(lin) and to_string(inf_rational) are injective on canonical values is an assumption of the tie, checked by
-   the differential on the slack identities and literals. *)
+   Sharing keys are modelled by the canonical data (the expression itself / (slack, op, constant)). That the printed keys
+   of the implementation determine exactly this data is proved in Properties_C15.v about models of the printers that are
+   compared with the C++ texts on every C15 run: C15_lin_to_string_injective (to_string(lin) on well-formed expressions),
+   C15_inf_rational_to_string_injective (to_string(inf_rational); the bounds built here have a finite rational part, the
+   side condition of that theorem), C15_assertion_key_injective ("x<slack> <= / >= <bound>"), C15_decimal_printing_injective
+   (std::to_string of the ids). What remains an observation of the differential (slack identities and literals) is that
+   lra_theory uses exactly these texts as keys. *)
 From Coq Require Import QArith List Bool Arith Lia.
 From ORatio Require Import smt.Lra smt.LraSem proofs.LraBase_Proofs proofs.LraTab_Proofs proofs.LraInv_Proofs proofs.LraThm_Proofs proofs.LraRel_Proofs proofs.LraTop_Proofs proofs.LraQuery_Proofs.
 Import ListNotations.
